@@ -1,7 +1,8 @@
 CONSTANTS
   MaxLen = 3
   MaxBin = 6
+  MaxWords = 4
 SPECIFICATION LSpec
 INVARIANTS LawB64Inverse LawB64Decoder LawHexInverse LawHexDecoder LawScalInverse LawScalDecoder LawUrlInverse LawUrlDecoder
-           LawSums LawCheckValues LawMd5 LawAes LawSbox
+           LawSums LawSumBoundary LawCheckValues LawMd5 LawAes LawSbox
 CHECK_DEADLOCK FALSE
